@@ -14,7 +14,25 @@ func runFamily(fam string, w *bufio.Writer, r *rng, id, size int, opt string) bo
 	case "result":
 		genResult(w, r, id, size)
 	case "call":
-		genCall(w, r, id, cfgGeneral, 3, "call")
+		switch opt {
+		case "", "general":
+			genCall(w, r, id, cfgGeneral, 3, "call")
+		case "fail":
+			genCall(w, r, id, cfgFail, 2, "call")
+		case "single":
+			genCall(w, r, id, cfgSingle, 8, "call")
+		case "acyclic":
+			genCall(w, r, id, cfgAcyclic, 8, "call")
+		case "exact":
+			emitCall(w, genExact(r, cfgGeneral), id, 5, "call", "fam=exact")
+		case "hopeless":
+			emitCall(w, genHopeless(r, cfgGeneral), id, 2, "call", "fam=hopeless")
+		case "affinity":
+			sc, extra := genAffinity(r, cfgGeneral)
+			emitCall(w, sc, id, 10, "call", extra)
+		default:
+			return false
+		}
 	default:
 		return false
 	}
